@@ -452,8 +452,21 @@ def check_db_conversion(repo, r4):
                             good = False
                     if not els:
                         good = False
-            elif t[0] == "comp" and t[1] == "DictComp":
-                good = False  # not used by the repo; would need the key/value pair form
+            elif t[0] == "comp" and t[1] == "DictComp" and t[2][0] == "tuple" and len(t[2][1]) == 2 and len(t[3]) == 1 and not t[3][0][2]:
+                # {bytes(kw, encoding): [bytes.fromhex(i) for i in db[kw]] for kw in db}  (also over db.items())
+                key, val = t[2][1]
+                src_ok = t[3][0][1] in (("param", dbp), ("mcall", ("param", dbp), "items", (), ()), ("mcall", ("param", dbp), "keys", (), ()))
+                good = src_ok and key in (want_key, want_key2)
+                els = []
+                if val[0] == "comp" and val[1] == "ListComp":
+                    els = [val[2]]
+                elif val[0] == "call" and val[1] == "list" and len(val[2]) == 1 and val[2][0][0] == "comp":
+                    els = [val[2][0][2]]
+                for v in els:
+                    if not (v[0] == "call" and v[1] == "bytes.fromhex" and len(v[2]) == 1 and (v[2][0] in idt_srcs or _is_item_value(v[2][0], dbp))):
+                        good = False
+                if not els:
+                    good = False
             okdb = okdb or good
     r4.require(okdb, cd, "database conversion", "convert_database_keyword_to_bytes no longer maps bytes(keyword, encoding) to the list of bytes.fromhex(identifier) of that keyword")
     dflt = cd.node.args.defaults
